@@ -5,6 +5,8 @@ package tor
 import (
 	"github.com/jech/storrent/hash"
 	"github.com/jech/storrent/path"
+	"github.com/jech/storrent/tracker"
+	"github.com/jech/storrent/webseed"
 )
 
 var vFileNames = [][]string{
@@ -89,4 +91,105 @@ func vC13(nf int) {
 		vReach("single-file")
 		vAssert(len(t.Files) == 0 && L == info.Length, "single file: total is the declared length")
 	}
+}
+
+var vTrackerURLs = [][]string{{"t00", "t01"}, {"t10", "t11"}}
+
+func vSameStrings(a, b []string) bool {
+	if len(a) != len(b) {
+		return false
+	}
+	for i := range a {
+		if a[i] != b[i] {
+			return false
+		}
+	}
+	return true
+}
+
+// H_C13_WriteTorrent: the .torrent file served back. The value handed to the bencode encoder,
+// read back the way ReadTorrent reads it, has the same info bytes, tracker tiers and web seeds
+// (<= 2 tiers of <= 2 trackers, <= 2 GetRight and <= 1 Hoffman seeds).
+func H_C13_WriteTorrent() {
+	t := &Torrent{Info: vBytes("info", 8), CreationDate: vI64("cdate")}
+	nt := vChoose("tiers", 0, 2)
+	var want [][]string
+	for i := 0; i < nt; i++ {
+		n := vChoose(vTrackerURLs[i][0]+".n", 0, 2)
+		var tier []tracker.Tracker
+		var urls []string
+		for j := 0; j < n; j++ {
+			tier = append(tier, tracker.VNew(vTrackerURLs[i][j], vChoose("kind", 0, 1)))
+			urls = append(urls, vTrackerURLs[i][j])
+		}
+		t.trackers = append(t.trackers, tier)
+		want = append(want, urls)
+	}
+	var wantGR, wantH []string
+	ngr := vChoose("getright", 0, 2)
+	for j := 0; j < ngr; j++ {
+		u := []string{"g0", "g1"}[j]
+		t.webseeds = append(t.webseeds, webseed.VNew(u, true))
+		wantGR = append(wantGR, u)
+	}
+	if vChoose("hoffman", 0, 1) == 1 {
+		t.webseeds = append(t.webseeds, webseed.VNew("h0", false))
+		wantH = append(wantH, "h0")
+	}
+	err := WriteTorrent(nil, t)
+	if err != nil {
+		vReach("encode-error")
+		return
+	}
+	bt, ok := vLastEncoded().(*BTorrent)
+	vAssert(ok, "a BTorrent is encoded")
+	if !ok {
+		return
+	}
+	vReach("written")
+	vAssert(len(bt.Info) == len(t.Info) && bt.CreationDate == t.CreationDate, "info dictionary passed on unchanged (length)")
+	j := vInt("j")
+	if j >= 0 && j < len(bt.Info) {
+		vAssert(bt.Info[j] == t.Info[j], "info dictionary passed on unchanged (bytes)")
+	}
+	// read back as ReadTorrent does
+	var got [][]string
+	if bt.AnnounceList != nil {
+		got = bt.AnnounceList
+	} else if bt.Announce != "" {
+		got = [][]string{{bt.Announce}}
+	}
+	same := len(got) == len(want)
+	for i := 0; same && i < len(want); i++ {
+		same = vSameStrings(got[i], want[i])
+	}
+	vAssert(same, "trackers: the same tiers with the same URLs in the same order")
+	vAssert(vSameStrings([]string(bt.URLList), wantGR), "GetRight web seeds preserved")
+	vAssert(vSameStrings([]string(bt.HTTPSeeds), wantH), "Hoffman web seeds preserved")
+}
+
+// H_C13_ReadTorrent: data flow of ReadTorrent under the decoder stub: the info-hash is the SHA-1
+// of exactly the raw info bytes the decoder delivered, and those bytes are what the torrent keeps.
+func H_C13_ReadTorrent() {
+	raw := vBytes("rawinfo", 40)
+	bt := BTorrent{Info: raw, CreationDate: vI64("cdate")}
+	if vBool("has-announce") {
+		bt.Announce = "tr"
+	}
+	info := BInfo{Name: "x", PieceLength: 16384, Pieces: make([]byte, 20), Length: 100}
+	_ = vBencode(&info)
+	_ = vBencode(&bt)
+	t, err := ReadTorrent("", nil)
+	if err != nil {
+		return
+	}
+	vReach("read")
+	vAssert(t != nil, "success yields a torrent")
+	vAssert(vSha1Eq(raw, t.Hash), "info-hash is the SHA-1 of the info dictionary as it appears in the input")
+	vAssert(len(t.Info) == len(raw) && t.CreationDate == bt.CreationDate, "raw info kept")
+	j := vInt("j")
+	if j >= 0 && j < len(raw) {
+		vAssert(t.Info[j] == raw[j], "raw info kept byte for byte")
+	}
+	vAssert(len(t.trackers) <= 1, "at most the announced tracker")
 }
